@@ -67,6 +67,20 @@ class Ctx:
         self.fns_analysed.add(fid)
         return f
 
+    def trait_fn(self, trait_item, self_ty, rule="anchor"):
+        """the workspace fn implementing `trait_item` for the impl whose self type prints as `self_ty`
+        (independent of how rustc prints the impl path)"""
+        cands = []
+        for f in self.F.trait_method_impls(trait_item):
+            im = self.F.impl_of_fn(f)
+            if im and im["self"]["s"] == self_ty:
+                cands.append(f)
+        if len(cands) != 1:
+            self.bad(rule, "anchor-missing/%s-for-%s" % (trait_item, self_ty), "expected exactly one impl of %s for %s, found %d" % (trait_item, self_ty, len(cands)))
+            raise AnchorMissing(trait_item)
+        self.fns_analysed.add(cands[0].id)
+        return cands[0]
+
     def fn_opt(self, fid):
         f = self.F.fns.get(fid)
         if f is not None:
